@@ -263,25 +263,26 @@ fn build_wdt(c: &Value, rng: &mut Rng) -> WdtFile {
     w
 }
 
-fn run_wdt(case: &str, c: &Value, rng: &mut Rng) -> Vec<Value> {
-    let mut evs = Vec::new();
-    let ver_s = gs(c, "ver");
-    let ver = wow_version(ver_s);
-    evs.push(json!({"ev":"Reset","case":case,"fmt":"wdt","ver":ver_s,"grid":gs(c,"grid"),"flags":c["flags"],
+fn wdt_reset(case: &str, c: &Value, chain: &[&str]) -> Value {
+    json!({"ev":"Reset","case":case,"fmt":"wdt","ver":gs(c,"ver"),"grid":gs(c,"grid"),"flags":c["flags"],
         "hasMwmo":c["hasMwmo"],"names":c["names"],"hasModf":c["hasModf"],"nModf":c["nModf"],"hasMaid":c["hasMaid"],"nSec":c["nSec"],
-        "tiles":c["tiles"],"holes":[],"nIdx":0,"nPlace":0,"nMldd":0,"nMlmd":0,"mode":"same"}));
-    let src = build_wdt(c, rng);
-    let warnings = src.validate();
-    evs.push(json!({"ev":"Source","case":case,"toks":wdt_toks(&src),"tiles":[],"warnings":warnings.len()}));
-    let (res, bytes) = wdt_write(&src);
+        "tiles":c["tiles"],"holes":[],"nIdx":0,"nPlace":0,"nMldd":0,"nMlmd":0,"mode":"same","chain":chain,"api":"-"})
+}
+
+/// Source .. Write .. Chunks .. WalkEnd .. Parse .. Rewrite for one in-memory object (freshly built, or the end
+/// of a conversion history); `base` = content tokens of the object the history started from
+fn wdt_roundtrip(case: &str, obj: &WdtFile, hint: WowVersion, base: &Value, evs: &mut Vec<Value>) {
+    let warnings = obj.validate();
+    evs.push(json!({"ev":"Source","case":case,"toks":wdt_toks(obj),"tiles":[],"warnings":warnings.len(),"base":base}));
+    let (res, bytes) = wdt_write(obj);
     let bytes = bytes.unwrap_or_default();
     evs.push(json!({"ev":"Write","case":case,"res":res,"len":bytes.len(),"tok":tok(&bytes)}));
     if res != "ok" {
-        return evs;
+        return;
     }
     let (obs, cur) = walk(&bytes);
-    chunk_events(case, &obs, cur, bytes.len(), &mut evs);
-    let (pres, parsed) = wdt_read(&bytes, ver);
+    chunk_events(case, &obs, cur, bytes.len(), evs);
+    let (pres, parsed) = wdt_read(&bytes, hint);
     match &parsed {
         Some(p) => evs.push(json!({"ev":"Parse","case":case,"mode":"same","res":pres,"det":format!("{:?}", p.version()),"toks":wdt_toks(p)})),
         None => evs.push(json!({"ev":"Parse","case":case,"mode":"same","res":pres,"det":"-","toks":no_toks_wdt()})),
@@ -291,6 +292,16 @@ fn run_wdt(case: &str, c: &Value, rng: &mut Rng) -> Vec<Value> {
         let b2 = b2.unwrap_or_default();
         evs.push(json!({"ev":"Rewrite","case":case,"mode":"same","res":r2,"len":b2.len(),"tok":tok(&b2)}));
     }
+}
+
+fn run_wdt(case: &str, c: &Value, rng: &mut Rng) -> Vec<Value> {
+    let mut evs = Vec::new();
+    let ver_s = gs(c, "ver");
+    let ver = wow_version(ver_s);
+    evs.push(wdt_reset(case, c, &[]));
+    let src = build_wdt(c, rng);
+    let base = wdt_toks(&src);
+    wdt_roundtrip(case, &src, ver, &base, &mut evs);
     for to_s in ga(c, "conv") {
         let to_s = to_s.as_str().unwrap();
         let to = wow_version(to_s);
@@ -313,6 +324,30 @@ fn run_wdt(case: &str, c: &Value, rng: &mut Rng) -> Vec<Value> {
             }
         }
         evs.push(json!({"ev":"Convert","case":case,"to":to_s,"res":cres,"toks":toks,"wres":wres2,"ptoks":ptoks,"fl":fl,"hm":hm,"hw":hw,"hd":hd}));
+    }
+    // conversion histories: the object at the end of each chain is a trace of its own
+    for (k, ch) in c.get("chains").and_then(|x| x.as_array()).cloned().unwrap_or_default().iter().enumerate() {
+        let vs: Vec<&str> = ch.as_array().unwrap().iter().map(|v| v.as_str().unwrap()).collect();
+        let sub = format!("{case}/h{k}");
+        evs.push(wdt_reset(&sub, c, &vs));
+        let mut w = src.clone();
+        let mut from = ver;
+        let mut res = "ok".to_string();
+        let mut at = vs.len();
+        for (i, to_s) in vs.iter().enumerate() {
+            let to = wow_version(to_s);
+            let (r, _) = outcome(guarded(|| convert_wdt(&mut w, from, to)));
+            if r != "ok" {
+                res = r;
+                at = i + 1;
+                break;
+            }
+            from = to;
+        }
+        evs.push(json!({"ev":"Chain","case":sub,"res":res,"at":at}));
+        if res == "ok" {
+            wdt_roundtrip(&sub, &w, from, &base, &mut evs);
+        }
     }
     evs
 }
@@ -419,32 +454,31 @@ fn build_wdl(c: &Value, rng: &mut Rng) -> WdlFile {
     w
 }
 
-fn run_wdl(case: &str, c: &Value, rng: &mut Rng) -> Vec<Value> {
-    let mut evs = Vec::new();
-    let ver_s = gs(c, "ver");
-    let ver = wdl_version(ver_s);
-    let mode = gs(c, "mode");
-    evs.push(json!({"ev":"Reset","case":case,"fmt":"wdl","ver":ver_s,"grid":gs(c,"grid"),"flags":[],
+fn wdl_reset(case: &str, c: &Value, chain: &[&str], api: &str, mode: &str) -> Value {
+    json!({"ev":"Reset","case":case,"fmt":"wdl","ver":gs(c,"ver"),"grid":gs(c,"grid"),"flags":[],
         "hasMwmo":false,"names":c["names"],"hasModf":false,"nModf":0,"hasMaid":false,"nSec":0,
-        "tiles":c["tiles"],"holes":c["holes"],"nIdx":c["nIdx"],"nPlace":c["nPlace"],"nMldd":c["nMldd"],"nMlmd":c["nMlmd"],"mode":mode}));
-    let src = build_wdl(c, rng);
-    let tl: Vec<Value> = sorted_keys(&src.heightmap_tiles)
+        "tiles":c["tiles"],"holes":c["holes"],"nIdx":c["nIdx"],"nPlace":c["nPlace"],"nMldd":c["nMldd"],"nMlmd":c["nMlmd"],"mode":mode,
+        "chain":chain,"api":api})
+}
+
+fn wdl_roundtrip(case: &str, obj: &WdlFile, ver: WdlVersion, mode: &str, base: &Value, evs: &mut Vec<Value>) -> Option<WdlFile> {
+    let tl: Vec<Value> = sorted_keys(&obj.heightmap_tiles)
         .iter()
         .map(|k| {
-            let o = src.holes_data.get(k).map(|h| tok(&holes_bytes(h))).unwrap_or_default();
-            json!([k.0, k.1, tok(&heights_bytes(&src.heightmap_tiles[k])), o])
+            let o = obj.holes_data.get(k).map(|h| tok(&holes_bytes(h))).unwrap_or_default();
+            json!([k.0, k.1, tok(&heights_bytes(&obj.heightmap_tiles[k])), o])
         })
         .collect();
-    evs.push(json!({"ev":"Source","case":case,"toks":wdl_toks(&src),"tiles":tl,"warnings":0}));
+    evs.push(json!({"ev":"Source","case":case,"toks":wdl_toks(obj),"tiles":tl,"warnings":0,"base":base}));
     let wp = WdlParser::with_version(ver);
-    let (res, bytes) = wdl_write(&wp, &src);
+    let (res, bytes) = wdl_write(&wp, obj);
     let bytes = bytes.unwrap_or_default();
     evs.push(json!({"ev":"Write","case":case,"res":res,"len":bytes.len(),"tok":tok(&bytes)}));
     if res != "ok" {
-        return evs;
+        return None;
     }
     let (obs, cur) = walk(&bytes);
-    chunk_events(case, &obs, cur, bytes.len(), &mut evs);
+    chunk_events(case, &obs, cur, bytes.len(), evs);
     // offset table, read from the bytes: [index, target, 1-based index of the chunk whose header starts there]
     if let Some(m) = obs.iter().find(|o| o.tag == "MAOF") {
         let n = m.size / 4;
@@ -476,6 +510,18 @@ fn run_wdl(case: &str, c: &Value, rng: &mut Rng) -> Vec<Value> {
         let b2 = b2.unwrap_or_default();
         evs.push(json!({"ev":"Rewrite","case":case,"mode":mode,"res":r2,"len":b2.len(),"tok":tok(&b2)}));
     }
+    parsed
+}
+
+fn run_wdl(case: &str, c: &Value, rng: &mut Rng) -> Vec<Value> {
+    let mut evs = Vec::new();
+    let ver_s = gs(c, "ver");
+    let ver = wdl_version(ver_s);
+    let mode = gs(c, "mode");
+    evs.push(wdl_reset(case, c, &[], "-", mode));
+    let src = build_wdl(c, rng);
+    let base = wdl_toks(&src);
+    wdl_roundtrip(case, &src, ver, mode, &base, &mut evs);
     for to_s in ga(c, "conv") {
         let to_s = to_s.as_str().unwrap();
         let to = wdl_version(to_s);
@@ -498,6 +544,34 @@ fn run_wdl(case: &str, c: &Value, rng: &mut Rng) -> Vec<Value> {
         }
         evs.push(json!({"ev":"Convert","case":case,"to":to_s,"res":cres,"toks":toks,"wres":wres2,"ptoks":ptoks,"fl":0,"hm":false,"hw":false,"hd":false}));
     }
+    // conversion histories through both public conversion entry points
+    for (k, ch) in c.get("chains").and_then(|x| x.as_array()).cloned().unwrap_or_default().iter().enumerate() {
+        let api = gs(ch, "api");
+        let vs: Vec<&str> = ga(ch, "vs").iter().map(|v| v.as_str().unwrap()).collect();
+        let sub = format!("{case}/h{k}");
+        evs.push(wdl_reset(&sub, c, &vs, api, "same"));
+        let mut cur: Option<WdlFile> = None;
+        let mut res = "ok".to_string();
+        let mut at = vs.len();
+        for (i, to_s) in vs.iter().enumerate() {
+            let to = wdl_version(to_s);
+            let from_obj: &WdlFile = cur.as_ref().unwrap_or(&src);
+            let (r, o) = outcome(guarded(|| if api == "to" { from_obj.convert_to(to) } else { convert_wdl_file(from_obj, to) }));
+            match o {
+                Some(o) => cur = Some(o),
+                None => {
+                    res = r;
+                    at = i + 1;
+                    break;
+                }
+            }
+        }
+        evs.push(json!({"ev":"Chain","case":sub,"res":res,"at":at}));
+        if res == "ok" {
+            let last = wdl_version(vs[vs.len() - 1]);
+            wdl_roundtrip(&sub, cur.as_ref().unwrap(), last, "same", &base, &mut evs);
+        }
+    }
     evs
 }
 
@@ -510,7 +584,7 @@ fn run_coord(case: &str) -> Vec<Value> {
         if ty % 4 == 0 {
             evs.push(json!({"ev":"Reset","case":case,"fmt":"coord","ver":"-","grid":"-","flags":[],
                 "hasMwmo":false,"names":[],"hasModf":false,"nModf":0,"hasMaid":false,"nSec":0,
-                "tiles":[],"holes":[],"nIdx":0,"nPlace":0,"nMldd":0,"nMlmd":0,"mode":"same"}));
+                "tiles":[],"holes":[],"nIdx":0,"nPlace":0,"nMldd":0,"nMlmd":0,"mode":"same","chain":[],"api":"-"}));
         }
         for tx in 0..64u32 {
             let r = guarded(|| {
